@@ -1,7 +1,7 @@
 """Which rules decide which property."""
 from __future__ import annotations
 
-from .rules import frag, c01, c02, c03
+from .rules import frag, c01, c02, c03, c11
 
 ASSUME = [
     'stdlib ast and re._parser front ends are correct',
@@ -55,6 +55,19 @@ PROPERTIES = {
             ('C03-R3', c03.rule_start_typestate, 'quick'),
             ('C03-R4', c03.rule_exclusion_dotmatch, 'quick'),
             ('C03-R5', c03.rule_walker_hidden, 'quick'),
+        ],
+    },
+    'C11': {
+        'explanation': 'static analysis of /repo/wcmatch: value of every `limit` default (constant resolver), forwarding of '
+                       '`limit` along every delegation (resolved call sites), hand-over to bracex and exception conversion, '
+                       'clamp discipline of budget arithmetic (CFG successor rule), budget continuity across passes',
+        'assumptions': ASSUME,
+        'rules': [
+            ('C11-R1', c11.rule_limit_defaults, 'quick'),
+            ('C11-R2', c11.rule_limit_forwarding, 'quick'),
+            ('C11-R3', c11.rule_limit_handover, 'quick'),
+            ('C11-R4', c11.rule_budget_clamp, 'quick'),
+            ('C11-R5', c11.rule_budget_continuity, 'quick'),
         ],
     },
 }
